@@ -27,3 +27,17 @@ Definition run_pipe (s : sx) : sx :=
   | 2 => sx_res (fun p => SL [enc_tokens (fst p); enc_env (snd p)]) (parse_inline cfg rf cf lt src env)
   | _ => sx_res (fun p => SL [sx_str (fst p); enc_env (snd p)]) (render_inline_md cfg rf cf lt src env)
   end.
+
+(* 41: (icfg src env reformat casefold linktext) -> the guard state after ParserInline.tokenize on a fresh
+   StateInline: the skipToken memo table, the backtick closer cache, its scanned flag, the final position *)
+Definition enc_zpairs (l : list (Z * Z)) : sx := sx_list (sx_pair SI SI) l.
+Definition run_guards (s : sx) : sx :=
+  let cfg := dec_icfg (sx_nth s 0%nat) in
+  let src := un_str (sx_nth s 1%nat) in
+  let env := dec_env (sx_nth s 2%nat) in
+  let rf := dec_table (sx_nth s 3%nat) in
+  let cf := dec_table (sx_nth s 4%nat) in
+  let lt := dec_table (sx_nth s 5%nat) in
+  sx_res (fun st => SL [enc_zpairs (i_cache st); enc_zpairs (i_backticks st); sx_bool (i_backticksScanned st); SI (i_pos st);
+                        SI (len (i_tokens st))])
+         (inline_tokenize cfg rf cf lt (ifs cfg rf cf lt (inline_depth cfg)) (istate_init src env [])).
